@@ -14,7 +14,7 @@ RULE = (
     "inline) on the real Geometry group; non-trivial = output mesh differs from input (or the state is a default/no-op state)"
 )
 ASSUMPTIONS = ["finite alphabets for values; nx<=4, ny<=7", "left-half and full-span meshes (right halves are C07's subject)", "OpenMDAO/NumPy trusted"]
-BOUND = {"quick": "nx<=3, half ny 3-4 / full 5", "thorough": "nx<=4, ny<=7, more values"}
+BOUND = {"quick": "nx<=3 (+ one planform with nx=4), half ny 3-4 / full 5", "thorough": "nx<=4, ny<=7, more values"}
 TOL = 1e-11
 
 SINGLE = {
@@ -41,7 +41,11 @@ def states(tier, seed):
     nxs = [2, 3] if tier == "quick" else [2, 3, 4]
     sides = [("left", 3), ("left", 4), ("full", 5)] + ([("left", 2), ("full", 7), ("full", 3)] if tier == "thorough" else [])
     raps = [0.25, 0.0, 0.5, 1.0]
-    for pf, nx, (side, ny), rap in itertools.product(pfs, nxs, sides, raps):
+    geo = list(itertools.product(pfs, nxs, sides, raps))
+    if tier == "quick":
+        # nx = 4 is the smallest mesh with an interior chordwise row
+        geo += list(itertools.product(["camber"], [4], [("left", 3), ("full", 5)], [0.25, 0.6]))
+    for pf, nx, (side, ny), rap in geo:
         if pf.startswith("camber") and nx < 3:
             continue
         base = dict(pf=pf, nx=nx, ny=ny, side=side, rap=rap, fam=fam)
